@@ -82,6 +82,18 @@ def gen(rng, max_n=8, p_sel=0.3, p_fail=0.06, mixed=True):
     # the whole graph described in an INNER DAG that the executed DAG calls: the spliced nodes ("inner.n3") must keep
     # every attribute they were declared with (priority, is_sequential, resource, tag, activation flag)
     sc["nested"] = rng.random() < 0.2
+    if sc["sel"] is None and rng.random() < 0.4:
+        # how a node receives each predecessor's result: positional / by keyword, whole / the indexed element v[0]
+        # (what arrives must be exactly the value after the indexing the description wrote)
+        for s_ in specs:
+            s_["use"] = {}
+            for j in s_["preds"]:
+                r_ = rng.random()
+                how = "p" if r_ < 0.45 else "k" if r_ < 0.65 else "pi" if r_ < 0.82 else "ki"
+                if how.endswith("i") and not (specs[j]["ret"] == "t" and specs[j]["flag"] is None and not specs[j]["fail"]):
+                    how = how[0]
+                if how != "p":
+                    s_["use"][str(j)] = how
     if rng.random() < 0.25:
         # reconfigure between build and run (dict / json / yaml file / plain attribute assignment)
         rc = dict(how=rng.choice(["dict", "dict", "json", "yaml", "attr"]), maxc=None, nodes={})
@@ -247,8 +259,23 @@ def value(i, s, args):
     return 0 if s["ret"] == "z" else ("n%d" % i,) + tuple(args)
 
 
+def received(s, get):
+    """What the node's function receives, in a canonical order: positional arguments (order of `preds`), then the
+    keyword arguments sorted by name; `get(j)` is predecessor j's result."""
+    use = s.get("use") or {}
+    pos, kw = [], []
+    for j in s["preds"]:
+        how = use.get(str(j), "p")
+        v = get(j)
+        if how.endswith("i"):
+            v = v[0]
+        (pos if how[0] == "p" else kw).append(v)
+    return tuple(pos) + tuple(kw)
+
+
 def make_node(i, s):
-    def body(*args):
+    def body(*args, **kw):
+        args = tuple(args) + tuple(kw[k_] for k_ in sorted(kw))
         control.node_enter(i, args)
         if s["fail"]:
             raise Boom(i)
@@ -279,7 +306,16 @@ def build(sc):
             kw = {}
             if s["flag"] is not None:
                 kw["twz_active"] = s["flag"][1] if s["flag"][0] == "c" else vals[s["flag"][1]]
-            vals.append(nodes[i](*[vals[j] for j in s["preds"]], **kw))
+            use = s.get("use") or {}
+            pos = []
+            for j in s["preds"]:
+                how = use.get(str(j), "p")
+                v = vals[j][0] if how.endswith("i") else vals[j]
+                if how[0] == "p":
+                    pos.append(v)
+                else:
+                    kw["k%02d" % j] = v
+            vals.append(nodes[i](*pos, **kw))
         return tuple(vals)
 
     if sc.get("nested"):
@@ -315,7 +351,7 @@ def oracle(sc, selected):
         elif s["fail"]:
             vals.append(None); failed.append(True)
         else:
-            vals.append(value(i, s, [get(j) for j in s["preds"]])); failed.append(False)
+            vals.append(value(i, s, received(s, get))); failed.append(False)
     vals = [None if v is ABSENT else v for v in vals]
     return vals, active, failed
 
@@ -523,7 +559,7 @@ def monitors(sc, obs):
                     bad("C05", "sequential-overlap", node=n, running=sorted(running))
             running.add(n)
             if n in selected and active[n] and not failed[n]:
-                want = tuple(vals[j] for j in specs[n]["preds"])
+                want = received(specs[n], lambda j: vals[j])
                 if tuple(args) != want:
                     bad("C02", "wrong-argument-values", node=n, got=args, want=want)
         elif k == "exit":
